@@ -74,7 +74,9 @@ def jobs(tier):
 
 def extra(results):
     pruned = sum(r[3].get("pruned", 0) for r in results if r[3])
-    return {"pruned_at_expanded_state": pruned}
+    execs = sum(r[3].get("executions", 0) for r in results if r[3])
+    # for the sequence enumeration a case is non-trivial when it was executed to its full depth (not cut at a known state)
+    return {"pruned_at_expanded_state": pruned, "distinct_nontrivial": execs - pruned}
 
 
 TECHNIQUE = ("explicit-state enumeration of all resize/update sequences up to a depth on the real code, plus stateless preemption-bounded "
